@@ -4,9 +4,9 @@ package main
 
 import (
 	"fmt"
+	"go/types"
 	"os"
 	"runtime/debug"
-	"go/types"
 	"sort"
 	"strings"
 
@@ -37,52 +37,52 @@ type loopInfo struct {
 	ordinal   int
 	spec      *LoopSpec
 	// filled at header time
-	headState *State          // state after havoc (for decreases/old)
-	preState  *State          // state before havoc
-	phiVals   map[*ssa.Phi]Val // havoced phi values
-	decr0     Term            // value of variant at loop head
-	headReach Term
-	mods      *modSet
+	headState   *State           // state after havoc (for decreases/old)
+	preState    *State           // state before havoc
+	phiVals     map[*ssa.Phi]Val // havoced phi values
+	decr0       Term             // value of variant at loop head
+	headReach   Term
+	mods        *modSet
 	assertStart int // index of the first assertion made for this loop (its head, body, nested loops)
 }
 
 type Frame struct {
-	bodyStart int // index of the first assertion made while encoding the body (after axioms and requires)
-	v        *Verifier
-	ctx      *Ctx
-	fn       *ssa.Function
-	con      *Contract
-	top      bool
-	depth    int
-	vals     map[ssa.Value]Val
-	reach    map[*ssa.BasicBlock]Term
-	out      map[*ssa.BasicBlock]*State
-	edgeCond map[[2]*ssa.BasicBlock]Term
-	loops    map[*ssa.BasicBlock]*loopInfo
-	params   []Val
-	free     []Val
-	entrySt  *State
-	entryR   Term
-	rets     []retInfo
-	objPfx   string // obligation name prefix
-	props    []string
-	nonNil   map[Term]*ssa.BasicBlock
-	dbgNames map[string][]*ssa.DebugRef
-	envBase  map[string]Val // contract-named params/results
-	oldSt    *State
-	counters map[string]int
-	callerDesc string
-	touched  map[string]string // comps written (comp -> sort) in this frame or inlined callees
-	deferred []*ssa.Defer
-	cur      *ssa.BasicBlock
+	bodyStart   int // index of the first assertion made while encoding the body (after axioms and requires)
+	v           *Verifier
+	ctx         *Ctx
+	fn          *ssa.Function
+	con         *Contract
+	top         bool
+	depth       int
+	vals        map[ssa.Value]Val
+	reach       map[*ssa.BasicBlock]Term
+	out         map[*ssa.BasicBlock]*State
+	edgeCond    map[[2]*ssa.BasicBlock]Term
+	loops       map[*ssa.BasicBlock]*loopInfo
+	params      []Val
+	free        []Val
+	entrySt     *State
+	entryR      Term
+	rets        []retInfo
+	objPfx      string // obligation name prefix
+	props       []string
+	nonNil      map[Term]*ssa.BasicBlock
+	dbgNames    map[string][]*ssa.DebugRef
+	envBase     map[string]Val // contract-named params/results
+	oldSt       *State
+	counters    map[string]int
+	callerDesc  string
+	touched     map[string]string // comps written (comp -> sort) in this frame or inlined callees
+	deferred    []*ssa.Defer
+	cur         *ssa.BasicBlock
 	inlineStack []string
-	havocAll bool
-	modCache []modEntry
-	mvars    []modelVar
-	iters    []*ssa.Range
-	allocNote bool
+	havocAll    bool
+	modCache    []modEntry
+	mvars       []modelVar
+	iters       []*ssa.Range
+	allocNote   bool
 	canaryGoals map[int][]Term
-	reachParts map[*ssa.BasicBlock][]Term // disjuncts of a merge block's reach condition
+	reachParts  map[*ssa.BasicBlock][]Term // disjuncts of a merge block's reach condition
 }
 
 func (fr *Frame) isBackEdge(from, to *ssa.BasicBlock) bool {
